@@ -745,6 +745,9 @@ int main(void)
 		the_token = vin_tokkind;
 		/* names that contain the path metacharacters are resolved as paths (C11): outside this claim */
 		for (i = 0; i < NTOK; i++)
+#ifdef PATHNAME
+			if (i == 2) /* bytes 0 and 1 are the concrete "c|" (also in a native replay, which reads them back) */
+#endif
 			V_ASSUME(vin_tok[i] != '|' && vin_tok[i] != '=');
 #ifdef PATHNAME
 		/* ... except this shaped one: "c|X", a path key into the single section "c" (X symbolic): the item is
